@@ -1097,24 +1097,178 @@ func (w *World) popTimer() timer {
 	return x
 }
 
-// AfterFunc is what time.AfterFunc is rewritten to: a task that sleeps, then runs f.
-type Timer struct {
+// ---- timers and tickers ----
+//
+// A channel receive `<-x` in the code under test is rewritten to vsim.Recv(x); that compiles only for the
+// time channels below (Ticker.C, Timer.C, After, Tick), which is all the simulator supports of channels.
+
+type TimeChan struct {
+	tk *Ticker
+	tm *Timer
+}
+
+// Ticker is what time.NewTicker returns in the instrumented copy.  It needs no task of its own: the next tick
+// time is advanced by whoever receives.
+type Ticker struct {
+	C       *TimeChan
+	period  int64
+	next    int64
 	stopped bool
-	fired   bool
+	real    *time.Ticker // pass-through mode only
+}
+
+func NewTicker(d time.Duration) *Ticker {
+	if d <= 0 {
+		panic("non-positive interval for NewTicker")
+	}
+	tk := &Ticker{period: int64(d)}
+	tk.C = &TimeChan{tk: tk}
+	if !tickerInit(tk) {
+		tk.real = time.NewTicker(d)
+	}
+	return tk
 }
 
 //go:norace
+func tickerInit(tk *Ticker) bool {
+	w := W
+	if w == nil {
+		return false
+	}
+	tk.next = w.Vnow + tk.period
+	return true
+}
+
+func Tick(d time.Duration) *TimeChan { return NewTicker(d).C }
+
+//go:norace
+func (tk *Ticker) Stop() {
+	tk.stopped = true
+	if tk.real != nil {
+		tk.real.Stop()
+	}
+}
+
+//go:norace
+func (tk *Ticker) Reset(d time.Duration) {
+	if tk.real != nil {
+		tk.real.Reset(d)
+		return
+	}
+	tk.period = int64(d)
+	tk.stopped = false
+	if w := W; w != nil {
+		tk.next = w.Vnow + tk.period
+	}
+}
+
+// Timer is what time.NewTimer / time.AfterFunc return in the instrumented copy.
+type Timer struct {
+	C       *TimeChan
+	at      int64
+	stopped bool
+	fired   bool
+	real    *time.Timer // pass-through mode only
+}
+
+func NewTimer(d time.Duration) *Timer {
+	tm := &Timer{}
+	tm.C = &TimeChan{tm: tm}
+	if !timerInit(tm, d) {
+		tm.real = time.NewTimer(d)
+	}
+	return tm
+}
+
+//go:norace
+func timerInit(tm *Timer, d time.Duration) bool {
+	w := W
+	if w == nil {
+		return false
+	}
+	tm.at = w.Vnow + int64(d)
+	return true
+}
+
+func After(d time.Duration) *TimeChan { return NewTimer(d).C }
+
+//go:norace
 func (t *Timer) Stop() bool {
+	if t.real != nil {
+		return t.real.Stop()
+	}
 	was := !t.stopped && !t.fired
 	t.stopped = true
 	return was
 }
 
+//go:norace
+func (t *Timer) Reset(d time.Duration) bool {
+	if t.real != nil {
+		return t.real.Reset(d)
+	}
+	was := !t.stopped && !t.fired
+	t.stopped, t.fired = false, false
+	if w := W; w != nil {
+		t.at = w.Vnow + int64(d)
+	}
+	return was
+}
+
+// Recv is what a channel receive is rewritten to.
+func Recv(c *TimeChan) time.Time {
+	if c.tk != nil && c.tk.real != nil {
+		return <-c.tk.real.C
+	}
+	if c.tm != nil && c.tm.real != nil {
+		return <-c.tm.real.C
+	}
+	return recvSim(c)
+}
+
+//go:norace
+func recvSim(c *TimeChan) time.Time {
+	w := W
+	if w == nil {
+		panic("vsim: receive on a simulated time channel outside a world")
+	}
+	t := w.cur
+	if t.abort {
+		return time.Time{}
+	}
+	w.St.SyncEvents++
+	if tk := c.tk; tk != nil {
+		for tk.stopped { // a stopped ticker never delivers: block for good (deadlock detection reports it)
+			t.state = stBlocked
+			w.yield(t, -13)
+		}
+		if w.Vnow < tk.next {
+			w.arm(t, tk.next-w.Vnow)
+			w.yield(t, -1)
+		}
+		v := tk.next
+		for tk.next <= w.Vnow { // the channel buffers one tick, later ones are dropped
+			tk.next += tk.period
+		}
+		return Epoch.Add(time.Duration(v))
+	}
+	tm := c.tm
+	for tm.stopped || tm.fired {
+		t.state = stBlocked
+		w.yield(t, -13)
+	}
+	if w.Vnow < tm.at {
+		w.arm(t, tm.at-w.Vnow)
+		w.yield(t, -1)
+	}
+	tm.fired = true
+	return Epoch.Add(time.Duration(tm.at))
+}
+
+// AfterFunc is what time.AfterFunc is rewritten to: a task that sleeps, then runs f.
 func AfterFunc(d time.Duration, f func()) *Timer {
 	if world() == nil {
-		rt := time.AfterFunc(d, f)
-		_ = rt
-		return &Timer{}
+		return &Timer{real: time.AfterFunc(d, f)}
 	}
 	tm := &Timer{}
 	Go(-6, func() {
